@@ -44,7 +44,14 @@ UrlF        == [kind |-> "url"] @@ StrOpts @@ Common
 FilenameF   == [kind |-> "filename", exists |-> "none", startdir |-> <<>>] @@ StrOpts @@ Common
 IntF        == [kind |-> "int", hasmin |-> FALSE, min |-> 0, hasmax |-> FALSE, max |-> 0] @@ Common
 FloatF      == [kind |-> "float", hasmin |-> FALSE, min |-> 0, hasmax |-> FALSE, max |-> 0] @@ Common
-PortF       == [kind |-> "int", hasmin |-> TRUE, min |-> 1, hasmax |-> TRUE, max |-> 65535] @@ Common
+\* (cls: the harness builds the named subclass with its OWN defaults - PortField(), LogLevelField(),
+\* ApplicationModeField() - so that the bounds / choices / transforms below are the class's, not ours)
+PortF       == [cls |-> "port", kind |-> "int", hasmin |-> TRUE, min |-> 1, hasmax |-> TRUE, max |-> 65535] @@ Common
+LogLevels   == << <<"d", "e", "b", "u", "g">>, <<"i", "n", "f", "o">>, <<"w", "a", "r", "n", "i", "n", "g">>,
+                  <<"e", "r", "r", "o", "r">>, <<"c", "r", "i", "t", "i", "c", "a", "l">> >>
+LogLevelF   == [cls |-> "loglevel"] @@ [StringF EXCEPT !.tcase = "lower", !.stripm = "ws", !.choices = LogLevels]
+AppModes    == << <<"d", "e", "v", "e", "l", "o", "p", "m", "e", "n", "t">>, <<"p", "r", "o", "d", "u", "c", "t", "i", "o", "n">> >>
+AppModeF    == [cls |-> "appmode_default"] @@ [StringF EXCEPT !.tcase = "lower", !.stripm = "ws", !.choices = AppModes]
 BoolF       == [kind |-> "bool"] @@ Common
 BytesF      == [kind |-> "bytes", encoding |-> "base64"] @@ Common
 ListF(item) == [kind |-> "list", item |-> item] @@ Common
